@@ -609,8 +609,17 @@ func c06RunPacket(c *c06Packet) (o c06PacketObs) {
 		}
 	}()
 	var fed [][]byte
+	// The production caller (control plane ingress loop) hands AppendData a slice of a
+	// pooled receive buffer and recycles that buffer when it returns, while the sniffer
+	// may hold the datagram until the ClientHello is complete. Model that: one receive
+	// buffer, overwritten after every call.
+	rx := make([]byte, 0, 2048)
 	for i, d := range c.Datagrams {
 		in := append([]byte(nil), d...)
+		if !c.InitWithFirst {
+			rx = append(rx[:0], d...)
+			in = rx
+		}
 		if i == 0 && c.InitWithFirst {
 			s = NewPacketSniffer(in, time.Second)
 		} else {
@@ -628,6 +637,11 @@ func c06RunPacket(c *c06Packet) (o c06PacketObs) {
 		o.Steps = append(o.Steps, st)
 		if !bytes.Equal(in, d) && o.DataBad == "" {
 			o.DataBad = fmt.Sprintf("caller's datagram %d modified in place (first difference at %d)", i, c06FirstDiff(in, d))
+		}
+		if !c.InitWithFirst {
+			for j := range rx { // the receive buffer is recycled
+				rx[j] = 0xEE
+			}
 		}
 		// Sniffer.Data(): what handlePkt replays; must be the ingress datagrams in order
 		var nonEmpty [][]byte
